@@ -14,25 +14,35 @@ LEVEL = "exploration"
 ENGINE = "iso14229-reference"
 TECHNIQUE = (
     "runtime oracle on helpers.parse_pdu / Response.matches / negative-response-to-exception mapping: request x reply matrix "
-    "classified by an independent echo table (genuine / foreign service / changed primary identifier / undecodable)"
+    "classified by an independent echo table (genuine / foreign service / changed primary identifier / undecodable); the request "
+    "is also carried by re-used request objects (judged once, then re-assigned through public attributes / setters / RawRequest.pdu)"
 )
 LEVEL_TEXT = (
     "Exploration: for generated requests of every kind (typed, raw form, suppress-bit variants, raw requests of services without "
     "typed classes) the real parse_pdu is called with the genuine reply, every other service's positive reply, replies with one "
     "echoed byte changed at each echo position, negative responses naming the same/another service with every defined response "
     "code and a sample of undefined ones, truncated replies and 7F xx; the outcome class (returned / mismatch / malformed) must be "
-    "the one the statement prescribes. All defined response codes are mapped to their exception class exhaustively."
+    "the one the statement prescribes. All defined response codes are mapped to their exception class exhaustively. Half of the "
+    "requests are additionally judged on a second use of a request object: a typed object of the same kind that was judged with "
+    "another content and then given the new values through its public attributes and property setters, and a RawRequest that held "
+    "another request of the same kind / of another kind of the same service / an unparsable head / a request of another service "
+    "before its .pdu was replaced; the genuine reply to the new content must be accepted, the genuine reply to the previous content "
+    "(stale) refused as mismatch whenever its service or echoed primary identifier differs, plus the reply matrix (whole for a "
+    "quarter of the re-used objects, a sample for the rest)."
 )
 LEVEL_NOTE = "Trusted: echo table and minimal genuine replies in vf/iso14229.py. Secondary echoes (e.g. DDDID of 0x2C) are not required to be compared."
 RULE = (
     "cases = (request bytes, reply bytes) pairs: requests from the C01 generators (all kinds) x reply families {genuine, other "
     "service positive (19 sids), echo byte changed per position, NR same/other service x all UDSErrorCodes, invalid codes, "
-    "truncations, 2-byte 7F xx}; non-trivial = every pair; distinct = distinct (request bytes, reply bytes, request form)"
+    "truncations, 2-byte 7F xx}; request forms {typed, raw, typed-reassigned, raw-reassigned (second use of the object after its "
+    "identifier / pdu was re-assigned; extra reply family: genuine reply to the previous content)}; non-trivial = every pair; "
+    "distinct = distinct (request bytes, reply bytes, request form)"
 )
 ASSUMPTIONS = [
     "the identifier whose change must cause refusal: sub-function (+ routine id for 0x31), first DID for 0x22/0x2E/0x2F, block counter for 0x36, ALFID+address+size for 0x3D, data length for 0x23",
     "a changed echo that also makes the reply undecodable may be refused as mismatch or as malformed",
     "a reply the reference calls malformed but the codec accepts and re-encodes identically is counted (lenient), not reported",
+    "'the request' of a pair is what the request object says (its .pdu) at the moment the reply is judged, also when the same object said something else at an earlier use",
 ]
 EXHAUSTIVE = {"quick": False, "thorough": False}
 EXHAUSTIVE_NOTE = "exhaustive sub-space: every UDSErrorCodes member x every typed service id for the negative-response paths"
@@ -50,7 +60,32 @@ def required_reach(tier: str) -> dict[str, int]:
     from gallia.services.uds.core.constants import UDSErrorCodes
 
     # every defined response code must have gone through the code -> exception mapping
-    return {"#outcome.returned:": 19, "#outcome.mismatch:": 19, "#outcome.malformed:": 15, "#nrc.mapped:": len(UDSErrorCodes), "matches.direct": 100, "raw-untyped": 50, "matches.direct.changed-echo": 500, "raise_for_mismatch.raised": 500}
+    return {"#outcome.returned:": 19, "#outcome.mismatch:": 19, "#outcome.malformed:": 15, "#nrc.mapped:": len(UDSErrorCodes), "matches.direct": 100, "raw-untyped": 50, "matches.direct.changed-echo": 500, "raise_for_mismatch.raised": 500,
+            # second use of one request object after its public attributes / .pdu were re-assigned
+            "#reuse.typed:": 30, "#reuse.stale-judged:": 10, "reuse.stale-judged.typed-reassigned": 500, "reuse.stale-judged.raw-reassigned": 500,
+            "reuse.stale-judged.other-service": 300, "reuse.raw.same-kind": 300, "reuse.raw.same-service-other-kind": 200, "reuse.raw.unparsable-head": 300, "reuse.raw.other-service": 300}
+
+
+PREVIOUS_MAX = 60  # longest first-use content of a re-used object (witnesses keep byte strings up to 64 bytes in full, replay needs it)
+REUSED_SHARE = 0.5  # fraction of the generated requests that are also judged on re-used request objects
+REUSED_FULL_MATRIX = 0.25  # fraction of re-used request objects that get the whole reply matrix (all get genuine / stale / one changed echo per position / a sample of the rest)
+
+
+def reassign(req: Any, donor: Any) -> None:
+    """Give req the content of donor (same class) through req's public interface only: every public instance attribute is
+    assigned, then every public property that has a setter.  Nothing private is touched, no new object is made."""
+    for n, v in list(vars(donor).items()):
+        if not n.startswith("_"):
+            setattr(req, n, v)
+    seen: set[str] = set()
+    for klass in type(req).__mro__:
+        for n, p in vars(klass).items():
+            if isinstance(p, property) and p.fset is not None and not n.startswith("_") and n not in seen:
+                seen.add(n)
+                try:
+                    setattr(req, n, getattr(donor, n))
+                except Exception:
+                    pass
 
 
 def outcome(parse_pdu: Any, exc: Any, reply: bytes, req: Any) -> tuple[str, Any]:
@@ -77,6 +112,8 @@ class Mon:
         self.service = service
         self.codes = [int(c) for c in UDSErrorCodes]
         self.invalid_codes = [c for c in range(256) if c not in self.codes]
+        self.by_sid: dict[int, list[str]] = {}  # service id -> names of the request kinds of that service (filled by run())
+        self.prev: dict[str, Any] | None = None  # set while a re-used request object is judged: what it said at its first use
 
     def expect(self, fam: str, want: set[str], q: bytes, reply: bytes, req: Any, form: str) -> str:
         ctx = self.ctx
@@ -89,20 +126,127 @@ class Mon:
                 ctx.violation(f"parse_pdu/{fam}/returned-bytes-differ/{sid:02x}", "accepted reply re-serialises differently", {"request": q, "reply": reply, "form": form, "got": obj.pdu})
             return got
         w = {"request": q, "reply": reply, "form": form, "family": fam, "got": got, "want": sorted(want), "detail": repr(obj)[:300]}
+        if self.prev is not None:
+            w.update(self.prev)
         sub = ""
         if sid in (0x19, 0x2C, 0x31) and len(q) > 1:
             sub = f".{q[1] & 0x7F:02x}"
         ctx.violation(f"parse_pdu/{fam}/{got}-instead-of-{'|'.join(sorted(want))}/{sid:02x}{sub}", f"{fam} reply: outcome {got}, expected {sorted(want)}", w)
         return got
 
-    def request_forms(self, kinds: dict[str, type], c: gen_uds.Case) -> list[tuple[str, Any]]:
-        out = []
+    def request_forms(self, kinds: dict[str, type], c: gen_uds.Case) -> list[tuple[str, Any, dict[str, Any] | None]]:
+        out: list[tuple[str, Any, dict[str, Any] | None]] = []
         try:
-            out.append(("typed", kinds[c.cls](*c.args, **c.kwargs)))
+            out.append(("typed", kinds[c.cls](*c.args, **c.kwargs), None))
         except Exception:
             pass
-        out.append(("raw", self.service.RawRequest(c.expect)))
+        out.append(("raw", self.service.RawRequest(c.expect), None))
         return out
+
+    # ---- second use of one request object after its public attributes were re-assigned -------------------------------------
+    def first_use(self, q0: bytes, req: Any, form: str) -> None:
+        """Judge the object once with what it says now (an ordinary case of the matrix), so that anything the matcher keeps per
+        request object exists before the object is changed."""
+        sid0 = q0[0]
+        self.expect("first-use/negative-same-service", {"returned"}, q0, bytes([0x7F, sid0, 0x31]), req, form)
+        if iso.request_wellformed(q0):
+            g0 = iso.genuine_positive(q0)
+            if g0 is not None and iso.decode_response(g0) is not None:
+                self.expect("first-use/genuine", {"returned"}, q0, g0, req, form)
+
+    def reused_forms(self, kinds: dict[str, type], c: gen_uds.Case, rng: random.Random) -> list[tuple[str, Any, dict[str, Any] | None]]:
+        """The request of case c carried by an object that was used before with another content: a typed object of the same kind
+        built from another generated case, then given c's values through its public attributes / property setters; a RawRequest
+        that held {another request of the same kind, an unparsable head of this request, a request of another service} whose
+        .pdu was replaced.  The statement's 'request' is what the object says when the reply is judged."""
+        ctx = self.ctx
+        q = c.expect
+        assert q is not None
+        out: list[tuple[str, Any, dict[str, Any] | None]] = []
+        c0 = None
+        for _ in range(4):
+            x = next(gen_uds.GEN[c.cls](rng))
+            if x.expect is not None and len(x.expect) <= PREVIOUS_MAX and iso.request_wellformed(x.expect):
+                c0 = x
+                if x.expect != q:
+                    break
+        # typed
+        if c0 is not None:
+            try:
+                req = kinds[c.cls](*c0.args, **c0.kwargs)
+                donor = kinds[c.cls](*c.args, **c.kwargs)
+            except Exception:
+                req = donor = None
+            if req is not None and c0.expect is not None and req.pdu == c0.expect:
+                self.first_use(c0.expect, req, "typed")
+                reassign(req, donor)
+                if req.pdu == q:
+                    ctx.reach(f"reuse.typed:{c.cls}")
+                    out.append(("typed-reassigned", req, {"previous": c0.expect, "previous_kind": "same-kind"}))
+                else:
+                    ctx.reach(f"reuse.typed-not-reassignable:{c.cls}")
+        # raw
+        kind = rng.choice(["same-kind", "same-service-other-kind", "unparsable-head", "other-service"])
+        q0: bytes | None = None
+        if kind == "same-kind" and c0 is not None:
+            q0 = c0.expect
+        elif kind == "same-service-other-kind":
+            others = [n for n in self.by_sid.get(q[0], []) if n != c.cls]
+            for _ in range(4 if others else 0):
+                x = next(gen_uds.GEN[rng.choice(others)](rng))
+                if x.expect is not None and len(x.expect) <= PREVIOUS_MAX and iso.request_wellformed(x.expect) and x.expect[0] == q[0]:
+                    q0 = x.expect
+                    break
+            if q0 is None and c0 is not None:
+                kind, q0 = "same-kind", c0.expect
+        elif kind == "unparsable-head":
+            heads = [q[:k] for k in range(1, min(len(q), PREVIOUS_MAX)) if not iso.request_wellformed(q[:k])]
+            q0 = rng.choice(heads) if heads else None
+        if q0 is None:
+            kind = "other-service"
+            for _ in range(20):
+                x = gen_uds.any_valid_request(rng)
+                if x.expect and x.expect[0] != q[0] and len(x.expect) <= PREVIOUS_MAX and iso.request_wellformed(x.expect):
+                    q0 = x.expect
+                    break
+        if q0 is not None:
+            req = self.service.RawRequest(q0)
+            self.first_use(q0, req, "raw")
+            req.pdu = q
+            if req.pdu == q:
+                ctx.reach(f"reuse.raw.{kind}")
+                out.append(("raw-reassigned", req, {"previous": q0, "previous_kind": kind}))
+        return out
+
+    def stale(self, q: bytes, gen: bytes | None, req: Any, form: str, prev: dict[str, Any]) -> None:
+        """The genuine reply to what the object said at its first use is a stale reply now: refused whenever its service or its
+        echoed primary identifier differs from the current request's."""
+        ctx = self.ctx
+        q0 = prev["previous"]
+        if not iso.request_wellformed(q0):
+            return
+        old = iso.genuine_positive(q0)
+        if old is None or iso.decode_response(old) is None:
+            return
+        sid = q[0]
+        if q0[0] != sid:
+            ctx.reach("reuse.stale-judged.other-service")
+            self.expect("reused-object/stale-reply-of-previous-service", {"mismatch"}, q, old, req, form)
+            return
+        echo = iso.primary_echo(q)
+        if echo is not None:
+            what, eb = echo
+            if old[1 : 1 + len(eb)] != eb:
+                ctx.reach(f"reuse.stale-judged:{sid:02x}")
+                ctx.reach(f"reuse.stale-judged.{form}")
+                self.expect(f"reused-object/stale-reply-of-previous[{what}]", {"mismatch"}, q, old, req, form)
+                return
+        elif sid == 0x23 and gen is not None and len(old) != len(gen):
+            ctx.reach(f"reuse.stale-judged:{sid:02x}")
+            ctx.reach(f"reuse.stale-judged.{form}")
+            self.expect("reused-object/stale-reply-of-previous[data length]", {"mismatch"}, q, old, req, form)
+            return
+        ctx.reach("reuse.same-primary-identifier")
 
     def run_request(self, kinds: dict[str, type], c: gen_uds.Case, rng: random.Random, pool: dict[int, list[bytes]]) -> None:
         ctx = self.ctx
@@ -112,7 +256,19 @@ class Mon:
         if not iso.request_wellformed(q):
             return
         gen = iso.genuine_positive(q, body=rng.randbytes(rng.choice([1, 2, 5])))
-        for form, req in self.request_forms(kinds, c):
+        forms = self.request_forms(kinds, c)
+        self.prev = None
+        if rng.random() < REUSED_SHARE:
+            forms += self.reused_forms(kinds, c, rng)
+        full_reused = rng.random() < REUSED_FULL_MATRIX
+        for form, req, prev in forms:
+            self.prev = prev
+            if prev is not None:
+                self.stale(q, gen, req, form, prev)
+                if req.pdu != q:
+                    ctx.violation("harness/reused-object-changed-while-judged", "the request object no longer says the request under test", {"request": q, "form": form, "now": req.pdu})
+                    continue
+            light = prev is not None and not full_reused
             if gen is not None:
                 if iso.decode_response(gen) is None:
                     ctx.violation("harness/genuine-not-decodable", "reference built a genuine reply its decoder rejects", {"request": q, "reply": gen})
@@ -123,7 +279,7 @@ class Mon:
                     if echo is not None:
                         what, eb = echo
                         for i in range(len(eb)):
-                            for delta in (1, 0x80, rng.randrange(1, 256)):
+                            for delta in (rng.choice((1, 0x80, rng.randrange(1, 256))),) if light else (1, 0x80, rng.randrange(1, 256)):
                                 ch = bytearray(gen)
                                 ch[1 + i] = (ch[1 + i] ^ delta) & 0xFF
                                 chb = bytes(ch)
@@ -135,7 +291,7 @@ class Mon:
                         self.expect("echo-changed[data length]", {"mismatch"}, q, gen[:-1], req, form)
                         self.expect("echo-changed[data length]", {"mismatch"}, q, gen + b"\x00", req, form)
                     # truncations (undecodable, right service)
-                    for k in range(1, len(gen)):
+                    for k in range(1, len(gen)) if not light else ():
                         t = gen[:k]
                         if iso.decode_response(t) is None:
                             got, obj = outcome(self.helpers.parse_pdu, self.exc, t, req)
@@ -150,6 +306,16 @@ class Mon:
                                 # the echoed identifier itself is cut: refusing as mismatch is as good as malformed
                                 continue
                             ctx.violation(f"parse_pdu/truncated/{got}-instead-of-malformed/{sid:02x}", "undecodable reply of the right service is not reported as malformed", {"request": q, "reply": t, "form": form, "got": got})
+            if light:
+                # re-used objects: the whole remaining matrix only for a fraction of them, a sample of it for all
+                for code in rng.sample(self.codes, 3):
+                    self.expect("negative-same-service", {"returned"}, q, bytes([0x7F, sid, code]), req, form)
+                other = rng.choice([s for s in iso.REQUEST_SIDS if s != sid])
+                self.expect("negative-other-service", {"mismatch"}, q, bytes([0x7F, other, rng.choice(self.codes)]), req, form)
+                if pool.get(other):
+                    self.expect("other-service-positive", {"mismatch"}, q, rng.choice(pool[other]), req, form)
+                self.expect("own-request-frame-echoed", {"mismatch"}, q, q, req, form)
+                continue
             # negative responses naming this service: every defined code
             for code in self.codes:
                 nr = bytes([0x7F, sid, code])
@@ -186,6 +352,7 @@ class Mon:
                 self.expect(f"foreign-first-byte[{cls_}]", {"mismatch"}, q, bytes([first]) + q[1:], req, form)
                 if gen is not None and first in (sid, sid | 0x80, (sid + 0x40) ^ 0x80):
                     self.expect(f"foreign-first-byte[{cls_}]+genuine-tail", {"mismatch"}, q, bytes([first]) + gen[1:], req, form)
+        self.prev = None
 
     def nrc_mapping(self) -> None:
         ctx = self.ctx
@@ -304,6 +471,14 @@ def run(ctx: Any, params: dict[str, Any]) -> None:
         mon.nrc_mapping()
         ctx.sample({"services_with_foreign_pool": sorted(f"{k:02x}" for k in pool)})
     names = [n for n in sorted(kinds) if n in gen_uds.GEN and n != "RawRequest"]
+    prng = random.Random(0)
+    for n in names:
+        for _ in range(8):
+            x = next(gen_uds.GEN[n](prng))
+            if x.expect:
+                if n not in mon.by_sid.setdefault(x.expect[0], []):
+                    mon.by_sid[x.expect[0]].append(n)
+                break
     for n in names:
         for _ in range(params["per_kind"]):
             c = next(gen_uds.GEN[n](rng))
@@ -339,7 +514,21 @@ def replay(ctx: Any, witness: dict[str, Any]) -> None:
 
     if "request" in witness and "reply" in witness:
         q, reply = ux(witness["request"]), ux(witness["reply"])
-        req = mon.service.RawRequest(q) if witness.get("form", "raw") != "typed" else mon.service.UDSRequest.parse_dynamic(q)
+        form = witness.get("form", "raw")
+        if form.endswith("-reassigned") and "previous" in witness:
+            # the same use: an object that said `previous`, judged once, then re-assigned to say `request`
+            q0 = ux(witness["previous"])
+            if form.startswith("typed"):
+                req = mon.service.UDSRequest.parse_dynamic(q0)
+                outcome(mon.helpers.parse_pdu, mon.exc, bytes([0x7F, q0[0], 0x31]), req)
+                reassign(req, mon.service.UDSRequest.parse_dynamic(q))
+            else:
+                req = mon.service.RawRequest(q0)
+                outcome(mon.helpers.parse_pdu, mon.exc, bytes([0x7F, q0[0], 0x31]), req)
+                req.pdu = q
+            mon.prev = {"previous": q0, "previous_kind": witness.get("previous_kind", "")}
+        else:
+            req = mon.service.RawRequest(q) if form != "typed" else mon.service.UDSRequest.parse_dynamic(q)
         mon.expect(witness.get("family", "replay"), set(witness.get("want", ["returned"])), q, reply, req, witness.get("form", "raw"))
     else:
         mon.nrc_mapping()
